@@ -397,6 +397,19 @@ def run(ctx, rep):
     rep.ob("C11.export-visibility", "ModuleType::get_property reads exported_members only", "ok" if fields == {"exported_members"} else "violated",
            "fields read: %s" % sorted(fields), gp.span, fn=gp.path)
 
+    # ---- 7. an export is the module's own variable cell, not a snapshot of its value -------------------------------------------
+    from props import _cells
+    en = need(F, "bytecode::instruction::implementations::export_name")
+    regs = en.calls_to("bytecode::context::Ctx::register_export")
+    rep.floor("C11.export-aliases register_export calls in export_name", len(regs), 1)
+    for c in regs:
+        _cells.origin_ok(rep, "C11.export-aliases", "export_name registers the variable's own cell (what the module writes later is what importers read)", en,
+                         op_local(c.args[2]) if len(c.args) > 2 else None, ["bytecode::context::Ctx::load_local"], where=c.span)
+    _cells.cell_creation(
+        rep, "C11.export-aliases", F,
+        allowed_creators={"bytecode::stack::PrimitiveFlagsPair::new", "bytecode::stack::PrimitiveModule::new"},
+        allowed_new_callers={"bytecode::stack::Stack::register_variable_local", "bytecode::instruction::implementations::export_special"})
+
 
 def rules_fn_arg(fn, op):
     """Name of the function item passed as an argument (fn item constant)."""
